@@ -344,3 +344,76 @@ def _guarded(fn, st):
                 if (h.type is None or dump(h.type) in ("Exception", "BaseException")) and not any(isinstance(x, ast.Raise) for b in h.body for x in ast.walk(b)):
                     return True
     return False
+
+
+# ---------------------------------------------------------------------------
+# W8 a method of a package base class hidden by a standard-library base placed before it
+# ---------------------------------------------------------------------------
+def _std_defined(dotted):
+    """names defined by a standard-library class or its ancestors (object excluded)"""
+    mod, _, cls = dotted.rpartition(".")
+    try:
+        k = getattr(importlib.import_module(mod), cls)
+    except Exception:
+        return None
+    names = set()
+    for c in getattr(k, "__mro__", ()):
+        if c is object:
+            continue
+        names |= set(vars(c))
+    return names
+
+
+def check_mro(ck, sl):
+    prog, prop = ck.prog, ck.prop
+    rule = prop + ".W8"
+    n = 0
+    for ci in prog.classes.values():
+        if not any(fi.cls is ci for fi in sl.values()) and not any(
+                fi.cls is not None and ci.fq in _pkg_ancestors(prog, fi.cls) for fi in sl.values()):
+            pass
+        bases = list(ci.bases)
+        if len(bases) < 2:
+            continue
+        relevant = any(fi.cls is ci or (fi.cls is not None and fi.cls.fq in _pkg_ancestors(prog, ci)) for fi in sl.values())
+        if not relevant:
+            continue
+        own = set(ci.methods)
+        ext_seen = set()
+        ext_names = []
+        pkg_seen = set()
+        for b in bases:
+            if isinstance(b, str) and b in prog.classes:
+                pb = prog.classes[b]
+                defined = {}
+                for anc in [pb.fq] + _pkg_ancestors(prog, pb):
+                    for m, f in prog.classes[anc].methods.items():
+                        defined.setdefault(m, f)
+                for m, f in sorted(defined.items()):
+                    if m in own or m in pkg_seen:
+                        continue
+                    hidden_by = [e for (e, names) in ext_names if m in names]
+                    n += 1
+                    ck.require(not hidden_by, rule, "%s.%s: %s.%s reachable through the class" % (ci.module, ci.qual, pb.qual, m),
+                               "no earlier standard-library base defines it",
+                               "class %s lists the standard-library base %s before %s, and %s defines `%s` too: the method resolution order "
+                               "takes the standard-library version, the package's override %s.%s never runs for instances of %s" % (
+                                   ci.qual, hidden_by[0] if hidden_by else "", pb.qual, hidden_by[0] if hidden_by else "", m, pb.qual, m, ci.qual),
+                               f.loc())
+                pkg_seen |= set(defined)
+            elif isinstance(b, str):
+                dotted = b[4:] if b.startswith("ext:") else b
+                names = _std_defined(dotted)
+                if names is not None:
+                    ext_names.append((dotted, names))
+    ck.ok(rule, "package methods inherited next to standard-library bases", "%d examined" % n, "")
+
+
+def _pkg_ancestors(prog, ci):
+    out, todo = [], list(ci.bases)
+    while todo:
+        b = todo.pop(0)
+        if isinstance(b, str) and b in prog.classes and b not in out:
+            out.append(b)
+            todo.extend(prog.classes[b].bases)
+    return out
